@@ -169,6 +169,7 @@ package part
 //@   requires n != nil && 1 <= kindOf(n.flags) && kindOf(n.flags) <= 5
 //@   modifies H_part_node4_txnID H_part_node16_txnID H_part_node48_txnID H_part_node256_txnID
 //@   ensures kindOf(n.flags) != 1 ==> txnIDOf(n) == txnID
+//@   ensures @frame unchangedExcept(H_part_node4_txnID, as(node4, n)) && unchangedExcept(H_part_node16_txnID, as(node16, n)) && unchangedExcept(H_part_node48_txnID, as(node48, n)) && unchangedExcept(H_part_node256_txnID, as(node256, n))
 //@ func (*header).clone
 //@   property C01 C11 C12
 //@   maypanic
@@ -241,6 +242,8 @@ package part
 //@   ensures @owned result != nil && (kindOf(result.flags) != 1 ==> txnIDOf(result) == txn.txnID)
 //@   ensures @copy-or-same result == n || (fresh(result) && (old(n.watch) != nil ==> has(txn.watches, old(n.watch))))
 //@   ensures @same-only-if-owned result == n ==> old(txnIDOf(n)) == txn.txnID
+//@   ensures @frame onlyFreshExcept(txn.watches)
+//@   ensures @kind kindOf(result.flags) == kindOf(n.flags)
 
 // delete / removeChild / modify: wherever a node is stamped with the transaction's id, its
 // watch channel is nil, fresh, or recorded for closing (see above).
@@ -250,6 +253,12 @@ package part
 //@ func (*header).children
 //@   trusted
 //@   pure
+//@   ensures kindOf(n.flags) == 2 ==> arr(result) == addr(as(node4, n).children) && off(result) == 0
+//@   ensures kindOf(n.flags) == 3 ==> arr(result) == addr(as(node16, n).children) && off(result) == 0
+//@   ensures kindOf(n.flags) == 4 ==> arr(result) == addr(as(node48, n).children) && off(result) == 0
+//@   ensures kindOf(n.flags) == 5 ==> arr(result) == addr(as(node256, n).children) && off(result) == 0
+//@   ensures kindOf(n.flags) == 1 ==> result == nil
+//@   ensures kindOf(n.flags) < 1 || kindOf(n.flags) > 5 ==> result == nil
 //@ func (*header).cap
 //@   trusted
 //@   pure
@@ -259,27 +268,65 @@ package part
 //@ func (*header).promote
 //@   trusted
 //@   ensures result != nil && fresh(result) && (result.watch == nil || fresh(result.watch))
+//@   ensures onlyFresh()
 //@ func newLeaf
 //@   trusted
 //@   ensures result != nil && fresh(result) && (result.watch == nil || fresh(result.watch))
+//@   ensures onlyFresh()
 //@ func (*Txn).removeChild
 //@   property C12 C06 C01
 //@   flag nosafety
 //@   flag assumepre=tree-representation-invariant
+//@   atstore node4 requires @store-owned $p.txnID == txn.txnID || fresh($p)
+//@   atstore node16 requires @store-owned $p.txnID == txn.txnID || fresh($p)
+//@   atstore node48 requires @store-owned $p.txnID == txn.txnID || fresh($p)
+//@   atstore node256 requires @store-owned $p.txnID == txn.txnID || fresh($p)
+//@   atstore leaf requires @store-owned fresh($p) || txn.txnID == 0
 //@   maypanic
-//@   requires txn != nil && parent != nil && txn.watches != nil && 1 <= kindOf(parent.flags) && kindOf(parent.flags) <= 5
+//@   requires txn != nil && parent != nil && txn.watches != nil && 2 <= kindOf(parent.flags) && kindOf(parent.flags) <= 5
 //@   atcall (*header).setTxnID@* requires @stamp-only-with-safe-watch $0.watch == nil || fresh($0.watch) || has(txn.watches, $0.watch)
+//@   atcall (*header).setLeaf@* requires @mutate-owned fresh($0) || (kindOf($0.flags) != 1 && txnIDOf($0) == txn.txnID)
+//@   atcall (*header).insert@* requires @mutate-owned fresh($0) || (kindOf($0.flags) != 1 && txnIDOf($0) == txn.txnID)
+//@   atcall (*header).remove@* requires @mutate-owned fresh($0) || (kindOf($0.flags) != 1 && txnIDOf($0) == txn.txnID)
+//@   atcall (*header).setPrefix@* requires @mutate-owned fresh($0) || (kindOf($0.flags) != 1 && txnIDOf($0) == txn.txnID)
+//@   atcall (*header).setSize@* requires @mutate-owned fresh($0) || (kindOf($0.flags) != 1 && txnIDOf($0) == txn.txnID)
+//@   atcall (*header).setKind@* requires @mutate-owned fresh($0) || (kindOf($0.flags) != 1 && txnIDOf($0) == txn.txnID)
 //@ func (*Txn).delete
 //@   property C12 C06 C01
 //@   flag nosafety
 //@   flag assumepre=tree-representation-invariant
+//@   atstore node4 requires @store-owned $p.txnID == txn.txnID || fresh($p)
+//@   atstore node16 requires @store-owned $p.txnID == txn.txnID || fresh($p)
+//@   atstore node48 requires @store-owned $p.txnID == txn.txnID || fresh($p)
+//@   atstore node256 requires @store-owned $p.txnID == txn.txnID || fresh($p)
+//@   atstore leaf requires @store-owned fresh($p) || txn.txnID == 0
 //@   maypanic
 //@   requires txn != nil && txn.watches != nil
 //@   atcall (*header).setTxnID@* requires @stamp-only-with-safe-watch $0.watch == nil || fresh($0.watch) || has(txn.watches, $0.watch)
+//@   atcall (*header).setLeaf@* requires @mutate-owned fresh($0) || (kindOf($0.flags) != 1 && txnIDOf($0) == txn.txnID)
+//@   atcall (*header).insert@* requires @mutate-owned fresh($0) || (kindOf($0.flags) != 1 && txnIDOf($0) == txn.txnID)
+//@   atcall (*header).remove@* requires @mutate-owned fresh($0) || (kindOf($0.flags) != 1 && txnIDOf($0) == txn.txnID)
+//@   atcall (*header).setPrefix@* requires @mutate-owned fresh($0) || (kindOf($0.flags) != 1 && txnIDOf($0) == txn.txnID)
+//@   atcall (*header).setSize@* requires @mutate-owned fresh($0) || (kindOf($0.flags) != 1 && txnIDOf($0) == txn.txnID)
+//@   atcall (*header).setKind@* requires @mutate-owned fresh($0) || (kindOf($0.flags) != 1 && txnIDOf($0) == txn.txnID)
 //@ func (*Txn).modify
 //@   property C12 C06 C01
 //@   flag nosafety
+//@   flag dyncall.mod=pure
 //@   flag assumepre=tree-representation-invariant
+//@   atstore node4 requires @store-owned $p.txnID == txn.txnID || fresh($p)
+//@   atstore node16 requires @store-owned $p.txnID == txn.txnID || fresh($p)
+//@   atstore node48 requires @store-owned $p.txnID == txn.txnID || fresh($p)
+//@   atstore node256 requires @store-owned $p.txnID == txn.txnID || fresh($p)
+//@   atstore leaf requires @store-owned fresh($p) || txn.txnID == 0
 //@   maypanic
 //@   requires txn != nil && txn.watches != nil
 //@   atcall (*header).setTxnID@* requires @stamp-only-with-safe-watch $0.watch == nil || fresh($0.watch) || has(txn.watches, $0.watch)
+//@   atcall (*header).setLeaf@* requires @mutate-owned fresh($0) || (kindOf($0.flags) != 1 && txnIDOf($0) == txn.txnID)
+//@   atcall (*header).insert@* requires @mutate-owned fresh($0) || (kindOf($0.flags) != 1 && txnIDOf($0) == txn.txnID)
+//@   atcall (*header).remove@* requires @mutate-owned fresh($0) || (kindOf($0.flags) != 1 && txnIDOf($0) == txn.txnID)
+//@   atcall (*header).setPrefix@* requires @mutate-owned fresh($0) || (kindOf($0.flags) != 1 && txnIDOf($0) == txn.txnID)
+//@   atcall (*header).setSize@* requires @mutate-owned fresh($0) || (kindOf($0.flags) != 1 && txnIDOf($0) == txn.txnID)
+//@   atcall (*header).setKind@* requires @mutate-owned fresh($0) || (kindOf($0.flags) != 1 && txnIDOf($0) == txn.txnID)
+//@   aftercall (*header).getLeaf@1 assume result == nil || kindOf(result.flags) == 1
+//@   loop 1 invariant @walk-owned isBox(thisp) || (isElemOf(node4, thisp) && elemOwner(node4, thisp).txnID == txn.txnID) || (isElemOf(node16, thisp) && elemOwner(node16, thisp).txnID == txn.txnID) || (isElemOf(node48, thisp) && elemOwner(node48, thisp).txnID == txn.txnID) || (isElemOf(node256, thisp) && elemOwner(node256, thisp).txnID == txn.txnID)
